@@ -73,10 +73,19 @@ class _TextCueParser:
     else:
       raise ValueError("Unknown token type")
 
+  def _push_span(self, span: model.Span):
+    """Adds `span` to the current parent, wrapping it into an `Rb` element if the parent is a ruby container"""
+    if isinstance(self.parent, model.Ruby):
+      rb = model.Rb(self.parent.get_doc())
+      rb.push_child(span)
+      self.ruby_rbc.push_child(rb)
+    else:
+      self.parent.push_child(span)
+
   def _handle_ts(self, token: TimestampTagToken):
 
     span = self._make_span(self.parent)
-    self.parent.push_child(span)
+    self._push_span(span)
     self.parent = span
 
     ts = vtt_timestamp_to_secs(token.timestamp)
@@ -98,9 +107,16 @@ class _TextCueParser:
 
     tag = token.tag.lower()
 
+    if tag.startswith("ruby") and (self.parent is not self.paragraph or self.ruby_rbc is not None):
+      # the data model only allows ruby containers as children of paragraphs
+      LOGGER.warning("Ignoring ruby tag that is nested in another tag at line %s", self.line_num)
+      tag = "span"
+
+    if tag.startswith("rt") and self.ruby_rtc is None:
+      LOGGER.warning("Ignoring rt tag outside of a ruby tag at line %s", self.line_num)
+      tag = "span"
+
     if tag.startswith("ruby"):
-      if self.ruby_rbc is not None or self.ruby_rtc is not None:
-        raise RuntimeError("Nested ruby tags are not allowed.")
       span = model.Ruby(self.parent.get_doc())
 
       # wrap <rb> and <rt> into <rbc> and <rtc>
@@ -121,7 +137,7 @@ class _TextCueParser:
     # all other tags can be handled as a span
 
     span = self._make_span(self.parent)
-    self.parent.push_child(span)
+    self._push_span(span)
     self.parent = span
 
     if isinstance(span.parent(), model.P):
@@ -155,7 +171,7 @@ class _TextCueParser:
           except KeyError:
             LOGGER.warning("Ignoring class %s", c)
 
-    elif tag == "v":
+    elif tag in ("v", "span"):
       pass
 
     else:
@@ -177,20 +193,23 @@ class _TextCueParser:
 
     self.parent = self.parent.parent()
 
+    if isinstance(self.parent, model.Rb):
+      # a tag within the base text of a ruby container was closed: return to the ruby container
+      self.parent = self.parent.parent().parent()
+
   def _handle_string(self, token: StringToken):
     lines = token.value.split("\n")
+
+    if isinstance(self.parent, (model.Ruby, model.Rt)):
+      # line breaks are not allowed in ruby containers
+      lines = [" ".join(lines)]
 
     for i, line in enumerate(lines):
       if i > 0:
         self.parent.push_child(model.Br(self.parent.get_doc()))
       span = self._make_span(self.parent)
       span.push_child(model.Text(self.parent.get_doc(), line))
-      if isinstance(self.parent, model.Ruby):
-        rb = model.Rb(self.parent.get_doc())
-        rb.push_child(span)
-        self.ruby_rbc.push_child(rb)
-      else:
-        self.parent.push_child(span)
+      self._push_span(span)
 
   def _make_span(self, parent: model.ContentElement) -> model.Span:
     span = model.Span(self.parent.get_doc())
